@@ -37,6 +37,7 @@ type sentinel struct {
 }
 
 type lifeCache interface {
+	SetCb(cb func(k string))
 	Set(k string, v *sentinel, d time.Duration)
 	Get(k string) (*sentinel, bool)
 	DeleteExpired()
@@ -46,6 +47,13 @@ type lifeCache interface {
 type lcCache struct{ c cache.Cache }
 
 func (l lcCache) Set(k string, v *sentinel, d time.Duration) { l.c.Set(k, v, d) }
+func (l lcCache) SetCb(cb func(k string)) {
+	if cb == nil {
+		l.c.SetEvictedCallback(nil)
+		return
+	}
+	l.c.SetEvictedCallback(func(k string, v interface{}) { cb(k) })
+}
 func (l lcCache) Get(k string) (*sentinel, bool) {
 	v, ok := l.c.Get(k)
 	if !ok {
@@ -61,9 +69,16 @@ type lcCacheOf struct {
 }
 
 func (l lcCacheOf) Set(k string, v *sentinel, d time.Duration) { l.c.Set(k, v, d) }
-func (l lcCacheOf) Get(k string) (*sentinel, bool)             { return l.c.Get(k) }
-func (l lcCacheOf) DeleteExpired()                             { l.c.DeleteExpired() }
-func (l lcCacheOf) Count() int                                 { return l.c.Count() }
+func (l lcCacheOf) SetCb(cb func(k string)) {
+	if cb == nil {
+		l.c.SetEvictedCallback(nil)
+		return
+	}
+	l.c.SetEvictedCallback(func(k string, v *sentinel) { cb(k) })
+}
+func (l lcCacheOf) Get(k string) (*sentinel, bool) { return l.c.Get(k) }
+func (l lcCacheOf) DeleteExpired()                 { l.c.DeleteExpired() }
+func (l lcCacheOf) Count() int                     { return l.c.Count() }
 
 func newLifeCache(p *LifeProgram, cb func(k string)) lifeCache {
 	if p.Kind == "Cache" {
@@ -139,11 +154,14 @@ func runLife(p *LifeProgram, tr int, tw *TraceWriter) {
 	vtime.Set(1000 * lifeUnit)
 	var mu sync.Mutex
 	var ledger []KV
-	cb := func(k string) {
-		mu.Lock()
-		ledger = append(ledger, KV{Cb: "cb1", K: k})
-		mu.Unlock()
+	mkcb := func(id string) func(k string) {
+		return func(k string) {
+			mu.Lock()
+			ledger = append(ledger, KV{Cb: id, K: k})
+			mu.Unlock()
+		}
 	}
+	cb := mkcb("cb1")
 	before := vtime.ActiveTickers()
 	c := newLifeCache(p, cb)
 	// the janitor creates its ticker inside its own goroutine: give it (bounded) time to start
@@ -172,6 +190,12 @@ func runLife(p *LifeProgram, tr int, tw *TraceWriter) {
 			_, e.Ok = c.Get(op.K)
 		case "deleteexpired":
 			c.DeleteExpired()
+		case "setcb":
+			if op.K == "" {
+				c.SetCb(nil)
+			} else {
+				c.SetCb(mkcb(op.K))
+			}
 		case "observe":
 		}
 		e.X = int64(c.Count())
